@@ -8,12 +8,12 @@ from vlib.core import exc_site, fmt_exc
 PROPERTY = "C13"
 LEVEL = "exploration"
 CLAIM = {
-    "text": "Exploration by runtime monitoring: for seeded random data lengths (FFT-good and not, 24..512), template kinds {boxcar, gaussian, lorentzian}, bank sizes and spacings, every response value MatchedFilter.convs[k,t] is recomputed as an explicit float64 inner product of the library's own standardised data (extended circularly to the FFT length, as documented) with the zero-mean unit-norm template whose reference bin is placed at t; snr/peak_bin/best_temp must be the maximum and its location; results must be invariant under x -> a*x+b (a>0); a noiseless boxcar of every bank width at start in {0,1,n/3,n-w} must be recovered at its start bin with its width.",
+    "text": "Exploration by runtime monitoring: for seeded random data lengths (FFT-good and not, 24..512), template kinds {boxcar, gaussian, lorentzian}, bank sizes and spacings, every response value MatchedFilter.convs[k,t] is recomputed as an explicit float64 inner product of the library's own standardised data (periodic over their own length) with the zero-mean unit-norm template whose reference bin is placed at t; snr/peak_bin/best_temp must be the maximum and its location; results must be invariant under x -> a*x+b (a>0); a noiseless boxcar of every bank width at start in {0,1,n/3,n-w} must be recovered at its start bin with its width.",
     "design_ref": "DESIGN.md section 3 (C13)",
-    "note": "Trusted: numpy float64 dot products. The normalisation support of templates is the FFT length (documented construction); z-scores are taken from the library (their correctness is C15's subject).",
+    "note": "Trusted: numpy float64 dot products. Data and templates are periodic over the data length n (templates normalised over n); z-scores are taken from the library (their correctness is C15's subject).",
     "technique": "runtime monitoring: explicit inner-product oracle for every (template, bin) + argmax consistency + metamorphic invariance checks",
 }
-ASSUMPTIONS = ["templates are normalised over the padded FFT length L = good_size(n)", "gate 1e-4*max(1,||z||) on responses (float32 FFT noise ~1e-6)"]
+ASSUMPTIONS = ["circular correlation over the data length n; templates zero-padded to n and normalised over n", "gate 1e-4*max(1,||z||) on responses (float32 FFT noise ~1e-6)"]
 RULE = ("random (n, kind, nbins_max, spacing_factor, data seed); pulses injected at random positions incl. both edges; boxcar recovery for every bank width x 4 start bins; "
         "non-trivial = bank has >= 2 templates; distinct = distinct case record")
 KINDS = ("boxcar", "gaussian", "lorentzian")
@@ -32,10 +32,14 @@ def cases(tier, seed):
 
 
 def _good(n):
-    """FFT length the documented construction pads to (pocketfft good size for real transforms)."""
+    """Length over which data and templates are periodic: the data length itself (templates are normalised over it)."""
+    return int(n)
+
+
+def _fft_friendly(n):
     from scipy.fft import next_fast_len
 
-    return int(next_fast_len(int(n), real=True))
+    return int(next_fast_len(int(n), real=True)) == int(n)
 
 
 def oracle_convs(z, bank, L):
@@ -84,7 +88,7 @@ def run_case(case, ctx):
     ctx.evaluated()
     ctx.count(f"kind:{kind}")
     L = _good(n)
-    if L != n:
+    if not _fft_friendly(n):
         ctx.count("len:not_fft_good")
     try:
         mf = MatchedFilter(x, temp_kind=kind, nbins_max=nbmax, spacing_factor=spacing)
@@ -177,8 +181,7 @@ def _boxcar(case, ctx, rng):
                 return
             if mf.peak_bin != start or int(mf.best_temp.width) != w:
                 L = _good(n)
-                # the circular extension to the FFT length repeats the first L-n bins after the end of the data
-                pos = "pulse-inside-circular-pad-duplicate" if (L > n and start < L - n) else ("edge" if start in (0, n - w) else "interior")
-                ctx.violation(f"boxcar-recovery[{pos}]", f"noiseless boxcar width {w} at {start} (n={n}, FFT length {L}) recovered as width {mf.best_temp.width} at bin {mf.peak_bin}", one)
+                pos = ("edge" if start in (0, n - w) else "interior") + ("" if _fft_friendly(n) else ":n-not-fft-friendly")
+                ctx.violation(f"boxcar-recovery[{pos}]", f"noiseless boxcar width {w} at {start} (n={n}) recovered as width {mf.best_temp.width} at bin {mf.peak_bin}", one)
                 continue
             ctx.nontrivial_case(one)
